@@ -39,6 +39,8 @@ pub fn handle_mset(storage: &Arc<StorageEngine>, db: usize, parts: &[RespFrame])
         return Ok(RespFrame::error("ERR wrong number of arguments for 'mset' command"));
     }
     
+    // All arguments are checked before the first pair is written: a refused MSET changes nothing
+    let mut pairs = Vec::with_capacity(parts.len() / 2);
     for i in (1..parts.len()).step_by(2) {
         let key = match &parts[i] {
             RespFrame::BulkString(Some(bytes)) => bytes.as_ref().clone(),
@@ -50,6 +52,9 @@ pub fn handle_mset(storage: &Arc<StorageEngine>, db: usize, parts: &[RespFrame])
             _ => return Ok(RespFrame::error("ERR invalid value format")),
         };
         
+        pairs.push((key, value));
+    }
+    for (key, value) in pairs {
         storage.set_string(db, key, value)?;
     }
     
